@@ -504,6 +504,11 @@ func pureExpr(v ssa.Value, depth int) string {
 // the value of a phi of constants (a `changed := false … changed = true` flag) is
 // tracked along the path and an If on such a phi follows only the feasible edge.
 func mustReachPS(f *ssa.Function, from, via *ssa.BasicBlock, target ssa.Instruction) bool {
+	return mustReachPSPred(f, from, via, func(i ssa.Instruction) bool { return i == target })
+}
+
+// mustReachPSPred: as mustReachPS with a predicate selecting the target instructions.
+func mustReachPSPred(f *ssa.Function, from, via *ssa.BasicBlock, isTarget func(ssa.Instruction) bool) bool {
 	exits := map[*ssa.BasicBlock]bool{}
 	for _, b := range successExitBlocks(f) {
 		exits[b] = true
@@ -564,7 +569,7 @@ func mustReachPS(f *ssa.Function, from, via *ssa.BasicBlock, target ssa.Instruct
 		}
 		seen[k] = true
 		for _, ins := range b.Instrs {
-			if ins == target {
+			if isTarget(ins) {
 				return // this path passes the target
 			}
 		}
